@@ -336,6 +336,9 @@ func (m *Migrator) mergeResults(results []MigrationResult, typeConverter *TypeCo
 	// Collect imports: always include kessoku, plus any imports needed for external types
 	imports := []ImportSpec{{Path: "github.com/mazrean/kessoku"}}
 	if typeConverter != nil {
+		if typeConverter.kessokuName != kessokuImportName {
+			imports[0].Name = typeConverter.kessokuName
+		}
 		collectedImports := typeConverter.Imports()
 		imports = append(imports, collectedImports...)
 	}
